@@ -9,7 +9,7 @@ import (
 
 // Chunking describes how a byte slice is delivered by successive Read calls.
 type Chunking struct {
-	Sizes       []int `json:"sizes"`                  // chunk sizes; the last one repeats; empty = whole input at once
+	Sizes       []int `json:"sizes"`                   // chunk sizes; the last one repeats; empty = whole input at once
 	EOFWithData bool  `json:"eof_with_data,omitempty"` // final chunk is returned together with io.EOF
 	ZeroEvery   int   `json:"zero_every,omitempty"`    // if >0 every n-th Read returns (0, nil) first
 	FailAfter   int   `json:"fail_after,omitempty"`    // if >0 return ErrInjected after that many bytes
